@@ -18,7 +18,8 @@ SPEC = {
             'observer without peer id; observation = conformant filling (nothing / some / every field the observer may '
             'fill) plus one injected field class the observer is not designated for (every class of both plugins, alone and '
             'together with legitimate fields), plus malformed (duplicates, nil or non-positive values, bad fChain, broken RMN '
-            'config, unknown contract name), retry queries, empty inner maps; verdict of Plugin.ValidateObservation after a '
+            'config, unknown contract name), retry queries, empty inner maps, chain keys without configured F (execute: rejected by '
+            'validateObservedChains whatever the role, so not counted as a rejection on role grounds); verdict of Plugin.ValidateObservation after a '
             'JSON round trip. non-trivial = at least one non-empty field and an observer that does not read every chain; '
             'distinct by full input',
     'trusted': ['home-chain reader answers (GetSupportedChainsForPeer, GetChainConfig) are scripted by a fake that mirrors '
